@@ -29,7 +29,7 @@ def slots_for(ctx, tier):
         flip = ctx.rng.random() < 0.5
         if tier == "thorough":
             return [("testify", True), ("testify", False), ("matryer", True), ("matryer", False), ("testify", None), ("matryer", None)]
-        if prog["fam"] in ("pkgs", "generic", "mname", "local", "unnamed") or prog["idclass"] in ("typename", "caseclash"):
+        if prog["fam"] in ("pkgs", "generic", "mname", "local", "unnamed", "multi") or prog["idclass"] in ("typename", "caseclash"):
             return [("testify", True), ("testify", False), ("matryer", True), ("matryer", False)]
         return [("testify", flip), ("matryer", not flip)]
     return f
@@ -73,7 +73,7 @@ def run(ctx):
     fams = {cs.prog["fam"] for cs in allcases} if not replay else set()
     if replay:
         return run_cases(ctx, sp, worlds, allcases, pids, 0, 0, 0)
-    need = {"shape", "ident", "pkgs", "embed", "generic", "mname", "local", "unnamed"}
+    need = {"shape", "ident", "pkgs", "embed", "generic", "mname", "local", "unnamed", "multi"}
     if not need <= fams:
         raise MachineryError("vacuous: families never executed: %s" % (need - fams))
     for dim, vals in (("fmt", {"goimports", "gofmt", "noop"}), ("place", set(cw.PLACEMENTS)), ("gomod", set(cw.GOMOD_SPELLINGS)),
@@ -161,13 +161,16 @@ def run_cases(ctx, sp, worlds, allcases, pids, ncov, aliased, renamed):
             if mi2 != pi:
                 n_drift_imp += 1
                 ctx.note("drift: imports of %s predicted %s measured %s" % (cs.pid, pi, mi))
-        got = {fn["name"]: fn for fn in info["funcs"] if fn["recv"] == cs.mockname}
-        for m in cs.pred["methods"]:
-            g = got.get(cw.conc_ident(m["n"]))
-            if g is None or g["params"] != [cw.conc_ident(x) for x in m["ps"]]:
-                n_drift_names += 1
-                ctx.note("drift: parameter names of %s.%s predicted %s measured %s" % (cs.pid, m["n"], m["ps"], g and g["params"]))
-                break
+        drift = None
+        for ifc in cs.pred["ifaces"]:          # every interface mocked into the file
+            got = {fn["name"]: fn for fn in info["funcs"] if fn["recv"] == cw.mock_name(ifc["n"])}
+            for m in ifc["methods"]:
+                g = got.get(cw.conc_ident(m["n"]))
+                if g is None or g["params"] != [cw.conc_ident(x) for x in m["ps"]]:
+                    drift = "drift: parameter names of %s %s.%s predicted %s measured %s" % (cs.pid, ifc["n"], m["n"], m["ps"], g and g["params"])
+        if drift:
+            n_drift_names += 1
+            ctx.note(drift)
 
     if os.environ.get("VERIF_DEBUG_DUMP"):
         with open(os.environ["VERIF_DEBUG_DUMP"], "w") as fh:
@@ -192,7 +195,8 @@ def run_cases(ctx, sp, worlds, allcases, pids, ncov, aliased, renamed):
     ctx.cov["rule"] = ("one evaluation = one (program, configuration) run through the real binary whose written file was type-checked "
                        "by the Go toolchain; non-trivial = distinct (program, configuration) inside the guarantee")
     ctx.cov.update({"programs_enumerated": len(sp.progs), "model_chains": len(sp.preds), "configurations_enumerated": len(sp.cfgs),
-                    "programs_executed": len(set(pids)), "cases_executed": len(allcases), "cases_not_evaluated": n_not_eval, "outside_guarantee": n_out,
+                    "programs_executed": len(set(pids)), "cases_executed": len(allcases),
+                    "cases_with_several_interfaces_in_one_file": sum(1 for cs in allcases if len(cs.pred["ifaces"]) > 1), "cases_not_evaluated": n_not_eval, "outside_guarantee": n_out,
                     "config_pairs_covered": ncov, "tlc": sp.tlc,
                     "predicted_issue_reproduced": n_pred_repro, "predicted_issue_not_reproduced": n_pred_not,
                     "failed_without_prediction": n_unpred, "import_drift": n_drift_imp, "name_drift": n_drift_names,
